@@ -174,13 +174,29 @@ def check(c):
         c.guard('C04.recompute', r, ['!force'], cr,
                 what='skip only when not forced;')
     # window agreement
-    brk = [n for n in ast.walk(cr.node) if isinstance(n, ast.Break)]
-    cnt = [b for b in brk if c.holds(b, 'count_cycles')]
-    c.floor('C04.window', 'cycle-count break', len(cnt), 1)
-    for b in cnt:
+    # the generation loop stops exactly at the window: every `break` of the
+    # `while seq_point is not None` loop is justified by one of the two
+    # window tests, and each test is made under its own limit kind (one
+    # break per kind, or one shared break behind a named flag -- same thing)
+    count_alts = ['1 + ilimit < count', 'ilimit + 1 < count',
+                  'ilimit + 2 <= count', '2 + ilimit <= count']
+    wl = [n for n in ast.walk(cr.node) if isinstance(n, ast.While)
+          and 'seq_point' in norm(n.test)]
+    c.floor('C04.window', 'point-generation loop', len(wl), 1)
+    brk = [n for lp in wl for n in ast.walk(lp) if isinstance(n, ast.Break)]
+    c.floor('C04.window', 'break of the generation loop', len(brk), 1)
+    for b in brk:
         c.guard('C04.window', b, [AnyOf(
-            '1 + ilimit < count', 'ilimit + 1 < count', 'ilimit + 2 <= count',
-            '2 + ilimit <= count')], cr)
+            *count_alts, 'base_point + limit < seq_point')], cr,
+            what='generation stops only past the window;')
+    cmp_cnt = [n for a in count_alts for n in c.find(cr, a)]
+    c.floor('C04.window', 'cycle-count window test', len(cmp_cnt), 1)
+    for n in cmp_cnt:
+        c.guard('C04.window', n, ['count_cycles'], cr)
+    cmp_itv = c.find(cr, 'base_point + limit < seq_point')
+    c.floor('C04.window', 'interval window test', len(cmp_itv), 1)
+    for n in cmp_itv:
+        c.guard('C04.window', n, ['!count_cycles'], cr)
     sl = c.find(cr, 'sorted(sequence_points)[:ilimit + 1][-1]') + c.find(
         cr, 'sorted(sequence_points)[:1 + ilimit][-1]') + c.find(
         cr, 'sorted(sequence_points)[ilimit]')
@@ -188,11 +204,7 @@ def check(c):
             len(sl), 1)
     for n in sl:
         c.guard('C04.window', n, ['count_cycles'], cr)
-    itv = [b for b in brk if c.holds(b, '!count_cycles')]
-    c.floor('C04.window', 'interval break', len(itv), 1)
-    for b in itv:
-        c.guard('C04.window', b, ['base_point + limit < seq_point'], cr)
-    adds = c.find(cr, 'sequence_points.add(seq_point)')
+    adds =c.find(cr, 'sequence_points.add(seq_point)')
     c.floor('C04.window', 'sequence_points.add', len(adds), 1)
     inc = [n for n in ast.walk(cr.node) if isinstance(n, ast.AugAssign)
            and norm(n.target) == 'count']
